@@ -223,6 +223,7 @@ RUN_C04 = RA([
     ("run_inflight_le_limit", "inflight_le_limit", "whole calls, every schedule: never more than the limit inside the run function"),
     ("run_limit_zero", "limit_zero_invokes_nobody", "limit 0: nobody is ever inside"),
     ("run_negative_unlimited", "negative_unlimited", "a negative limit refuses nobody"),
+    ("run_large_limit_never_rejects", "large_limit_never_rejects", "a limit at least the number of callers refuses nobody"),
     ("run_quiescent_gauge_zero", "quiescent_gauge_zero", "once every call has returned — by return, refusal or PANIC — the gauge reads zero"),
     ("run_gauge_never_negative", "gauge_never_negative", "the gauge is never negative")])
 RUN_C01 = RA([
